@@ -80,6 +80,10 @@ def _ones22(prog, mi, t, depth=0):
     a = t.single_atom()
     if a is None:
         return False
+    if a[0] == "call" and a[1] == "numpy.ones" and a[2]:
+        # np.ones((2, 2)) / np.ones((2, 2), dtype=int): a fresh array of ones of that shape
+        sh = a[2][0].single_atom()
+        return sh is not None and sh[0] in ("tuple", "list") and tuple(sh[1]) == (const(2), const(2))
     if a[0] == "call" and a[1] in FRESH_CALLS and a[2]:
         return _ones_literal(prog, mi, a[2][0])
     if a[0] == "mcall" and a[2] == "copy":
@@ -450,6 +454,9 @@ def cache_complete(ctx):
             bad.append("unassigned on the path %s" % "; ".join(q.short(c, 40) for c in conds))
         elif not (_two_keys(l) or T.mentions(l, lambda z: z[0] in ("mcall", "call", "dict") or z == ("param", "est_rate"))):
             bad.append(q.short(l, 60))
+    # the table is looked up with `in` tests and filled at two simulation sites (rate missing / denominator missing); any other
+    # organisation of the cache (dict.get with a sentinel, one shared simulation site) is not followed
+    ctx.anchor("LinearFourRates._update_bounds_dict", "two simulation sites behind membership tests", len(sims) == 2, "found %d simulation call(s)" % len(sims))
     ctx.ob("AGREE-cache", "LinearFourRates._update_bounds_dict", "every path returns a cached entry or a fresh simulation", not bad and len(sims) == 2, "; ".join(bad[:2]))
     in_rate = atom(("in", P("r_est_rate"), A("_bounds")))
     in_den = atom(("in", P("r_curr_denom"), q.sub(A("_bounds"), P("r_est_rate"))))
